@@ -302,7 +302,17 @@ class Check:
         """Run the Coq obligations; a failure becomes a violation with no-failing-input-found
         unless the caller later finds a failing input (callers may upgrade)."""
         bad = coq_hygiene()
-        ob = coq_obligations(pid or self.pid)
+        pids = (pid or self.pid).split("+")      # "C04+C04b": several property files, obligations added up
+        ob = coq_obligations(pids[0])
+        for extra in pids[1:]:
+            o2 = coq_obligations(extra)
+            for k in ("obligations", "discharged", "wall_s"):
+                ob[k] += o2[k]
+            ob["theorems"] += o2["theorems"]
+            ob["axioms"] = sorted(set(ob["axioms"]) | set(o2["axioms"]))
+            ob["rc"] = ob["rc"] or o2["rc"]
+            ob["log"] += o2["log"]
+            ob["checker_cmd"] += " ; " + o2["checker_cmd"]
         self.cov["obligations"] = ob["obligations"]
         self.cov["discharged"] = ob["discharged"]
         self.cov["checker_cmd"] = ob["checker_cmd"]
